@@ -147,6 +147,16 @@ def gen_C03(tier, seed):
     for a, b in itertools.product(small, small):
         out.append(f"min {p2(a)} {p2(b)}")
         out.append(f"max {p2(a)} {p2(b)}")
+    # exact multiples of each unit (the harness rebuilds both operands through every public constructor that can express them)
+    for k in (-32768, -3, -2, -1, 0, 1, 2, 3, 32767):
+        for u in range(9):
+            for dlt in (0, 1, -1):
+                v = k * UNIT_FACTORS[u] + dlt
+                if MINV <= v <= MAXV:
+                    for w in (v, 0, k * UNIT_FACTORS[8]):
+                        if MINV <= w <= MAXV:
+                            out.append(f"eq {p2(parts_of(v))} {p2(parts_of(w))}")
+                            out.append(f"cmp {p2(parts_of(v))} {p2(parts_of(w))}")
     # pairs whose century fields differ by exactly one, opposite pairs, equal counts
     for c in (-3, -2, -1, 0, 1, 2):
         for d in (1, 10, NPC // 2, NPC - 10, NPC - 1):
@@ -1406,6 +1416,7 @@ def gen_C07(tier, seed):
         for dd in (101, -101, 150, 1000, 10**6, 99, 100, 0):
             out.append(f"ordf {p2(parts_of(i))} {p2(parts_of(i + dd))} 0 2")
             out.append(f"ordf {p2(parts_of(i - J2000_NS))} {p2(parts_of(i - J2000_NS + dd))} 3 0")
+            out.append(f"ordf {p2(parts_of(i - J2000_NS))} {p2(parts_of(i - J2000_NS + dd))} {2 + (i + dd) % 2} {3 - (i + dd) % 2}")   # ET <-> TDB
     # out of the property's span and at the representable bounds (model = code; spec open)
     for v in (MINV, MINV + 1, MAXV - 1, -SPAN10K * 3, SPAN10K * 3, 0):
         for t1, t2 in ((0, 2), (0, 3), (2, 0), (3, 0), (2, 3), (3, 2), (4, 2), (2, 4), (3, 4), (4, 3)):
@@ -1437,7 +1448,7 @@ def gen_C07(tier, seed):
         elif m < 0.97:
             dd = r.choice([-1, 1]) * r.choice([101, 102, 110, 128, 200, 500, 10**4, 10**9, r.randint(101, 10**7)])
             v1 = i - J2000_NS
-            out.append(f"ordf {p2(parts_of(v1))} {p2(parts_of(v1 + dd))} {t2} {t1}")
+            out.append(f"ordf {p2(parts_of(v1))} {p2(parts_of(v1 + dd))} {t2} {t1 if r.random() < 0.8 else 5 - t2}")
         else:
             out.append(f"convf {p3(parts_of(i - J2000_NS) + (t2,))} {r.choice([4, 5 - t2])}")
     return out
